@@ -152,6 +152,14 @@ def check_alias_roundtrip(fam, cls, s, o, rec, det, facts, field="x"):
     if key not in out or out[key] != wire or len(out) != (1 if y_dropped else 2):
         rec.violation(f"{facts['position']}:to_dict-did-not-write-the-exact-key", dict(det, observed=common.short(out), expected_key=key, source="".join(fam.sources[1:])[-1500:]), facts)
         return False
+    if o["nullable"]:
+        # a None VALUE is written under the same key as any other value (or dropped with the default it equals)
+        out3 = cls(**{field: None, "y": 2}).to_dict(**({"by_alias": True} if o["flag_by_alias"] else {}))
+        dropped = o["omit_default"] and o["default"]        # the default of a nullable member is None here
+        if (dropped and (s in out3 or field in out3) and key in out3) or (not dropped and (key not in out3 or out3[key] is not None or len(out3) != 2)):
+            rec.violation(f"{facts['position']}:to_dict-did-not-write-the-exact-key-for-a-null-value", dict(det, observed=common.short(out3), expected_key=key,
+                          source="".join(fam.sources[1:])[-1500:]), facts)
+            return False
     if o["nullable"] and not o["conv"]:
         r2 = cls.from_dict({s: None, "y": 1})
         if getattr(r2, field) is not None:
@@ -208,16 +216,18 @@ def pos_union_field_alias(fam, rng, s, rec, det, facts):
 
 def pos_typeddict_key(fam, rng, s, rec, det, facts):
     from mashumaro.codecs.basic import BasicDecoder, BasicEncoder
-    req = rng.random() < 0.5
-    if s in ("other",):
+    kind = rng.choice(["required", "optional-date", "optional-any-lone", "optional-any-pair"])
+    req = kind == "required"
+    if s in ("other", "zz"):
         return True
-    src = ("TD = TypedDict('TD', {S: " + ("int" if req else "NotRequired[datetime.date]") + ", 'other': int})\n"
+    ksrc = {"required": "int", "optional-date": "NotRequired[datetime.date]", "optional-any-lone": "NotRequired[Any]", "optional-any-pair": "NotRequired[Any]"}[kind]
+    src = ("TD = TypedDict('TD', {S: " + ksrc + ", 'other': int" + (", 'zz': NotRequired[Any]" if kind == "optional-any-pair" else "") + "})\n"
            "@dataclass\nclass M(DataClassDictMixin):\n    t: TD\n")
-    facts["opts"] = f"required={req}"
+    facts["opts"] = f"key={kind}"
     if not build(fam, src, rec, det, facts):
         return False
     import datetime
-    wire, val = (3, 3) if req else ("2020-01-02", datetime.date(2020, 1, 2))
+    wire, val = (3, 3) if req else ("2020-01-02", datetime.date(2020, 1, 2)) if kind == "optional-date" else ("opaque", "opaque")
     for route, decode, encode in (("field", lambda d: fam.module.M.from_dict({"t": d}).t, lambda v: fam.module.M(v).to_dict()["t"]),
                                   ("codec", BasicDecoder(fam.module.TD).decode, BasicEncoder(fam.module.TD).encode)):
         r = decode({s: wire, "other": 1, "x_decoy": 9})
@@ -292,13 +302,35 @@ def pos_forbid_keys(fam, rng, s, rec, det, facts):
     from mashumaro.exceptions import ExtraKeysError
     allow = rng.random() < 0.5
     facts["opts"] = f"allow={allow}"
+    earlier = rng.random() < 0.5
+    if earlier:
+        # history: ANOTHER class with forbid_extra_keys was built before, one that legitimately accepts more keys (its member
+        # names next to the aliases, the tag key of its class-level discriminator): those are its keys, nobody else's
+        src0 = ("@dataclass\nclass L(DataClassDictMixin):\n    lx: int = field(default=0, metadata=field_options(alias='LA'))\n"
+                "    class Config(BaseConfig):\n        forbid_extra_keys = True\n        allow_deserialization_not_by_alias = True\n"
+                "        discriminator = Discriminator(field='ltag', include_subtypes=True)\n"
+                "@dataclass\nclass L1(L):\n    ltag = 'one'\n")
+        if not build(fam, src0, rec, det, facts):
+            return False
+        fam.module.L.from_dict({"ltag": "one", "lx": 1})
+    facts["opts"] = f"allow={allow} earlier_class={earlier}"
     src = ("@dataclass\nclass M(DataClassDictMixin):\n    x: int = field(default=0, metadata=field_options(alias=S))\n    y: int = 1\n"
            f"    class Config(BaseConfig):\n        forbid_extra_keys = True\n        allow_deserialization_not_by_alias = {allow}\n")
     if not build(fam, src, rec, det, facts):
         return False
     m = fam.module
-    if s == "y":
+    if s in ("y", "lx", "ltag"):
         return True
+    if earlier:
+        for foreign in ("lx", "ltag"):
+            try:
+                m.M.from_dict({s: 4, foreign: 1})
+                rec.violation("forbid_keys:key-of-an-earlier-class-accepted", dict(det, extra=foreign, source="".join(fam.sources[1:])[-1200:]), facts)
+                return False
+            except ExtraKeysError as e:
+                if set(e.extra_keys) != {foreign}:
+                    rec.violation("forbid_keys:wrong-extra-keys", dict(det, observed=sorted(map(repr, e.extra_keys))), facts)
+                    return False
     r = m.M.from_dict({s: 4, "y": 2})
     if r.x != 4:
         rec.violation("forbid_keys:alias-key-rejected-or-unread", dict(det, observed=common.short(r)), facts)
